@@ -22,7 +22,8 @@ RULE = ('dcf_1d: dyadic sample lists (sorted / shuffled / duplicates / 0-2 value
         'implementation: positivity, permutation, |a|^d scaling, translation, 90 degree and (3,4,5) rotation, equal split, '
         'weight = reference cell volume for interior cells (no Voronoi ridge shared with a far corner site, not replaced by the '
         'outlier rule). Non-trivial = at least 2 distinct values (1-D) / at least one interior cell; distinct by case hash.')
-TRUSTED_BASE = ['scipy.spatial.Voronoi / ConvexHull (qhull) as geometric reference for selecting interior cells and their volumes',
+TRUSTED_BASE = ['translator harness/translate/voronoi.py (ast -> Gallina for dcf_1d and the Tukey fence lines; fail-closed)',
+                'scipy.spatial.Voronoi / ConvexHull (qhull) as geometric reference for selecting interior cells and their volumes',
                 'numpy percentile (linear) and int(0.99*m) modelled in Coq as exact rationals / floor(99 m / 100)',
                 'completeness of Sutherland-Hodgman clipping (polygon = cell) not proved: tied by correspondence only',
                 '3-D qhull path: no executable model, implementation-level oracles only']
@@ -42,6 +43,29 @@ def fr(p):
 
 TOL = 1e-5
 STATS = {'cases_with_outlier_replacement_2d': 0, 'skipped_borderline_2d': 0, 'compared_2d': 0, 'interior_cells_checked': 0, 'cells_replaced_by_outlier_rule': 0}
+
+
+# ------------------------------------------------------------------------------------------------
+def translate(ctx):
+    """Regenerate Gen/voronoi_gen.v from dcf_voronoi.py (dcf_1d: branch structure, central differences, edge rule, fallback,
+    counts / inverse; dcf_2d3d_voronoi: the Tukey fence lines) and re-check gen_* = Model/Voronoi1D.v / fence_formula."""
+    from translate import voronoi as tvor
+    out = vlib.COQ / 'Gen' / 'voronoi_gen.v'
+    out.parent.mkdir(exist_ok=True)
+    ok, why = tvor.write(out)
+    ctx.extra.setdefault('coverage', {})['translator_available'] = ok
+    ctx.obligations += tvor.N_OBLIGATIONS
+    if not ok:
+        ctx.notes.append(f'translator harness/translate/voronoi.py failed closed ({why})')
+        ctx.problem('proof', 'gen_voronoi', None, f'dcf_voronoi.py is outside the translated subset ({why}): the regenerated obligations '
+                    'gen_conv / gen_central_diff / gen_dcf_1d = Model/Voronoi1D.v and gen_fence cannot be stated')
+        return
+    rc, so, se = vlib.coqc_file(out)
+    if rc == 0:
+        ctx.discharged += tvor.N_OBLIGATIONS
+    else:
+        ctx.problem('proof', 'gen_voronoi', None, 'regenerated obligation gen_*_ok (dcf_1d == Model/Voronoi1D.v: kernel / branch structure, '
+                    'edge rule, fallback / counts and inverse; Tukey fence of dcf_2d3d_voronoi) no longer proves: ' + (se or so)[-700:])
 
 
 def qlist(xs):
